@@ -24,7 +24,7 @@ TITLE = "Walkers evolve independently; batching and storage format change nothin
 
 MENU = {"quick": 36, "thorough": 132}
 TIERS = {
-    "quick": dict(runs=36 * 12, budget_s=170, recheck=2, shrink_s=60.0, run_timeout_s=900),
+    "quick": dict(runs=36 * 12, budget_s=300, recheck=2, shrink_s=60.0, run_timeout_s=900),
     "thorough": dict(runs=132 * 120, budget_s=1200, recheck=6, shrink_s=180.0, run_timeout_s=1800),
 }
 RULE = (
